@@ -430,6 +430,25 @@ def main(tier, seed, replay=None):
                 layers_impl = [[pos[n] for n in l] for l in td[0]["layers"]]
             for r in lrec:
                 dist["max_layer_width"] = max(dist["max_layer_width"], max(len(l) for l in r["layers"]))
+        # the same queries on batches stored in other dtypes (integer codes for complete rows, float64 with NaN): the parallel
+        # result must be the sequential result on that very batch
+        with np.errstate(all="ignore"):
+            for dt in (np.float64, np.int64, np.uint8):
+                Xd = Xc.astype(dt)
+                for fn, nm in ((likelihood, "likelihood"), (log_likelihood, "log_likelihood")):
+                    a = fn(root, Xd, n_jobs=0); b = fn(root, Xd, n_jobs=2)
+                    dist["parallel_runs"] += 1
+                    if a.dtype != b.dtype or not np.array_equal(a, b, equal_nan=True):
+                        problems.append(dict(what=f"parallel {nm} differs from sequential on a {np.dtype(dt).name} batch", n_jobs=2,
+                                             sequential=[float(v) for v in np.ravel(a)[:4]], parallel=[float(v) for v in np.ravel(b)[:4]],
+                                             dtypes=[str(a.dtype), str(b.dtype)]))
+            X64 = X.astype(np.float64)
+            a = log_likelihood(root, X64, n_jobs=0); b = log_likelihood(root, X64, n_jobs=2)
+            am = mpe(root, X64, n_jobs=0); bm = mpe(root, X64, n_jobs=2)
+            dist["parallel_runs"] += 2
+            if a.dtype != b.dtype or not np.array_equal(a, b, equal_nan=True) or not np.array_equal(am, bm, equal_nan=True):
+                problems.append(dict(what="parallel log_likelihood / mpe differs from sequential on a float64 batch with missing entries", n_jobs=2,
+                                     dtypes=[str(a.dtype), str(b.dtype)]))
         cases.append(dict(tag=tag, tab=tab, layers=layers_impl, problems=problems))
         dist[tag] += 1; dist["nodes"] += len(tab.nodes)
     rep.cov["input_distribution"] = dist
